@@ -16,6 +16,8 @@ struct Case {
     k: usize,
     /// 0: Tournament::new, 1: Tournament::of_size::<K>(), 2: Tournament::binary()
     ctor: u8,
+    /// results are errors (lower is better) instead of scores
+    errors: bool,
 }
 
 fn mk_tournament(k: usize, ctor: u8) -> Tournament {
@@ -34,13 +36,17 @@ fn mk_tournament(k: usize, ctor: u8) -> Tournament {
 fn tournament_case(c: &Case) -> (u64, u64, Option<(String, String)>, usize) {
     let n = c.values.len();
     let pop = mk_pop(&c.values);
+    let pop_e = mk_pop_matrix_err(&c.values.iter().map(|v| vec![*v]).collect::<Vec<_>>());
+    let errors = c.errors;
+    // goodness: a score as it is, an error negated (lower is better)
+    let g = move |v: i64| if errors { -v } else { v };
     let sel = mk_tournament(c.k, c.ctor);
     let m = lcm_upto(n as u128) as u32;
     let mut law: Law<i64> = Law::new();
     let mut pos_law: Law<usize> = Law::new();
     let mut bad: Option<String> = None;
     let mut max_draws = 0usize;
-    let label0 = format!("values={:?} k={}", c.values, c.k);
+    let label0 = format!("{}={:?} k={}", if c.errors { "errors" } else { "values" }, c.values, c.k);
     // per-leaf consequence stated by the property: the winner is at least as good as k-1 other members.
     // Checked first on every stream with at most two non-default words (always terminates: beyond a
     // horizon the words come from the tail stream), so that a sampler that loops or repeats entrants is
@@ -48,10 +54,10 @@ fn tournament_case(c: &Case) -> (u64, u64, Option<(String, String)>, usize) {
     if c.k <= n {
         let mut weak: Option<String> = None;
         mcx::explore_bounded_h(
-            |env| observe_select(&sel, &pop, &pop, env, Alphabet::Grid(m)),
+            |env| if errors { observe_select(&sel, &pop_e, &pop_e, env, Alphabet::Grid(m)) } else { observe_select(&sel, &pop, &pop, env, Alphabet::Grid(m)) },
             |t, o| {
                 if let SelObs::Idx(i) = o {
-                    let others_not_better = c.values.iter().enumerate().filter(|(j, v)| *j != i && **v <= c.values[i]).count();
+                    let others_not_better = c.values.iter().enumerate().filter(|(j, v)| *j != i && g(**v) <= g(c.values[i])).count();
                     if others_not_better + 1 < c.k && weak.is_none() {
                         weak = Some(format!("word choices {:?}: the winner (value {}) is at least as good as only {others_not_better} other members, a tournament of {} needs {}", t.iter().map(|x| x.pick).collect::<Vec<_>>(), c.values[i], c.k, c.k - 1));
                     }
@@ -70,7 +76,7 @@ fn tournament_case(c: &Case) -> (u64, u64, Option<(String, String)>, usize) {
     let expected_leaves = (m as u64).saturating_pow(c.k as u32);
     let stats = explore(
         |env| {
-            let o = observe_select(&sel, &pop, &pop, env, Alphabet::Grid(m));
+            let o = if errors { observe_select(&sel, &pop_e, &pop_e, env, Alphabet::Grid(m)) } else { observe_select(&sel, &pop, &pop, env, Alphabet::Grid(m)) };
             (o, env.signature())
         },
         |_, w, (o, sig)| {
@@ -92,7 +98,7 @@ fn tournament_case(c: &Case) -> (u64, u64, Option<(String, String)>, usize) {
         },
         expected_leaves.saturating_mul(8).saturating_add(10_000).min(50_000_000),
     );
-    let label = format!("values={:?} k={}", c.values, c.k);
+    let label = label0.clone();
     if let Some(d) = &stats.diverged {
         return (stats.leaves, stats.choice_points, Some((format!("tournament/nondeterministic/k={}", c.k), format!("{label}: {d}"))), law.mass.len());
     }
@@ -110,8 +116,8 @@ fn tournament_case(c: &Case) -> (u64, u64, Option<(String, String)>, usize) {
     classes.sort();
     classes.dedup();
     for v in classes {
-        let le = c.values.iter().filter(|x| **x <= v).count() as u128;
-        let lt = c.values.iter().filter(|x| **x < v).count() as u128;
+        let le = c.values.iter().filter(|x| g(**x) <= g(v)).count() as u128;
+        let lt = c.values.iter().filter(|x| g(**x) < g(v)).count() as u128;
         let num = binom(le, c.k as u128) - binom(lt, c.k as u128);
         want.add(v, Ratio::new(num, total));
     }
@@ -176,6 +182,18 @@ pub fn run(run: &mut Run) {
                     let o = observe_select(&Worst, &pop, &pop, &mut env, Alphabet::Grid(2));
                     (o, env.draws())
                 }),
+                ("best(errors)", mn, {
+                    let pe = mk_pop_matrix_err(&values.iter().map(|v| vec![*v]).collect::<Vec<_>>());
+                    let mut env = mcx::Env::new(vec![]);
+                    let o = observe_select(&Best, &pe, &pe, &mut env, Alphabet::Grid(2));
+                    (o, env.draws())
+                }),
+                ("worst(errors)", mx, {
+                    let pe = mk_pop_matrix_err(&values.iter().map(|v| vec![*v]).collect::<Vec<_>>());
+                    let mut env = mcx::Env::new(vec![]);
+                    let o = observe_select(&Worst, &pe, &pe, &mut env, Alphabet::Grid(2));
+                    (o, env.draws())
+                }),
             ] {
                 bw += 1;
                 let ok = matches!(obs.0, SelObs::Idx(i) if values[i] == want);
@@ -218,7 +236,7 @@ pub fn run(run: &mut Run) {
             let full = n <= 4 || (n == 5 && k <= 3) || (!quick && n == 6 && k <= 2);
             if full {
                 for values in all_value_vectors(n, &VALUES) {
-                    cases.push(Case { values, k, ctor: 0 });
+                    cases.push(Case { values, k, ctor: 0, errors: false });
                 }
             }
             // every ordering of n distinct values (positions matter to a sampler, values to the law)
@@ -228,13 +246,13 @@ pub fn run(run: &mut Run) {
                 permutations(&mut perm, 0, &mut all);
                 for values in all {
                     if !full || n >= 4 {
-                        cases.push(Case { values, k, ctor: 0 });
+                        cases.push(Case { values, k, ctor: 0, errors: false });
                     }
                 }
             }
             if !full {
                 for values in family(n) {
-                    cases.push(Case { values, k, ctor: 0 });
+                    cases.push(Case { values, k, ctor: 0, errors: false });
                 }
             }
         }
@@ -244,9 +262,10 @@ pub fn run(run: &mut Run) {
     // the other constructors (const-generic size, binary) on the populations of up to 4
     let mut more = vec![];
     for c in cases.iter().filter(|c| c.values.len() <= 4) {
-        more.push(Case { values: c.values.clone(), k: c.k, ctor: 1 });
+        more.push(Case { values: c.values.clone(), k: c.k, ctor: 1, errors: false });
+        more.push(Case { values: c.values.clone(), k: c.k, ctor: 0, errors: true });
         if c.k == 2 {
-            more.push(Case { values: c.values.clone(), k: 2, ctor: 2 });
+            more.push(Case { values: c.values.clone(), k: 2, ctor: 2, errors: false });
         }
     }
     cases.extend(more);
@@ -262,7 +281,7 @@ pub fn run(run: &mut Run) {
             if k.starts_with("machinery/") {
                 run.machinery(w);
             } else {
-                run.violation(k, w, json!({"check":"C07","scenario":"tournament","values":cases[i].values,"k":cases[i].k,"ctor":cases[i].ctor}));
+                run.violation(k, w, json!({"check":"C07","scenario":"tournament","values":cases[i].values,"k":cases[i].k,"ctor":cases[i].ctor,"errors":cases[i].errors}));
             }
         }
     }
@@ -271,7 +290,7 @@ pub fn run(run: &mut Run) {
     run.transitions += bw;
     run.traces_validated = run.evaluations;
     run.distinct_nontrivial = nontrivial;
-    run.rule = "every population of size 1..n over 3 values (ties included) x every tournament size (Tournament::new; for n <= 4 also of_size::<K>() and binary()); all grid word sequences explored on the real Tournament::select; the accumulated winner-value law is compared, as exact rationals, with [C(#<=v,k)-C(#<v,k)]/C(n,k); non-trivial = (population, k) scenarios whose law has more than one outcome".into();
+    run.rule = "every population of size 1..n over 3 values (ties included) x every tournament size (Tournament::new; for n <= 4 also of_size::<K>(), binary(), and individuals whose results are errors, lower is better); Best/Worst likewise on scores and on errors; all grid word sequences explored on the real Tournament::select; the accumulated winner-value law is compared, as exact rationals, with [C(#<=v,k)-C(#<v,k)]/C(n,k); non-trivial = (population, k) scenarios whose law has more than one outcome".into();
     run.bound("max_population", json!(max_n));
     run.bound("tournament_sizes", json!("every k with lcm(1..n)^k executions within the per-case budget (3e5 quick, 2e7 thorough); full population product for n<=4, n=5 k<=3 (thorough n=6 k<=2); all orderings of distinct values for n<=5; a 9-member population family otherwise"));
     run.bound("best_worst_population_sizes", json!("1..=6"));
@@ -289,7 +308,7 @@ pub fn replay(v: &Value) -> bool {
     match v["scenario"].as_str() {
         Some("tournament") => {
             let k = v["k"].as_u64().unwrap_or(1) as usize;
-            let (leaves, _, viol, _) = tournament_case(&Case { values: values.clone(), k, ctor: v["ctor"].as_u64().unwrap_or(0) as u8 });
+            let (leaves, _, viol, _) = tournament_case(&Case { values: values.clone(), k, ctor: v["ctor"].as_u64().unwrap_or(0) as u8, errors: v["errors"].as_bool().unwrap_or(false) });
             println!("tournament of size {k} on values {values:?}: {leaves} executions explored");
             match viol {
                 Some((key, w)) => {
@@ -303,15 +322,18 @@ pub fn replay(v: &Value) -> bool {
             }
         }
         Some(name) => {
-            let pop = mk_pop(&values);
+            let errors = name.contains("errors");
+            let best = name.starts_with("best");
             let mut env = mcx::Env::new(vec![]);
-            let o = if name == "best" {
-                observe_select(&Best, &pop, &pop, &mut env, Alphabet::Grid(2))
+            let o = if errors {
+                let pe = mk_pop_matrix_err(&values.iter().map(|v| vec![*v]).collect::<Vec<_>>());
+                if best { observe_select(&Best, &pe, &pe, &mut env, Alphabet::Grid(2)) } else { observe_select(&Worst, &pe, &pe, &mut env, Alphabet::Grid(2)) }
             } else {
-                observe_select(&Worst, &pop, &pop, &mut env, Alphabet::Grid(2))
+                let pop = mk_pop(&values);
+                if best { observe_select(&Best, &pop, &pop, &mut env, Alphabet::Grid(2)) } else { observe_select(&Worst, &pop, &pop, &mut env, Alphabet::Grid(2)) }
             };
             println!("{name} on {values:?} -> {o:?}");
-            let want = if name == "best" { values.iter().max() } else { values.iter().min() };
+            let want = if best != errors { values.iter().max() } else { values.iter().min() };
             matches!(o, SelObs::Idx(i) if Some(&values[i]) == want)
         }
         None => false,
